@@ -101,7 +101,24 @@ def genPcm (n : Nat) : G Bytes := do
 def bigPcm (seed n : Nat) : Bytes :=
   (List.range n).map fun k => u8 (k * 37 + k / 256 * 11 + k / 65536 * 7 + seed * 101 + 13)
 
-/-- size classes: 0..2 ordinary; 3 = long IT-compressed samples (several blocks); 5 = sample data beyond 64 KiB;
+/-- boundary-biased choice: with `pct` % one of the listed boundary values that lie in `[lo, hi]`, otherwise uniform.
+Every numeric header field is drawn this way: off-by-one errors of the loaders' range checks live at these values. -/
+def pickB (bs : List Nat) (lo hi : Nat) (pct : Nat := 35) : G Nat := do
+  let inb := bs.filter fun b => lo ≤ b ∧ b ≤ hi
+  if inb.isEmpty ∨ !(← chance pct) then range lo hi else return inb.getD (← below inb.length) lo
+
+/-- speed / tempo bytes, volume-like bytes, 32-bit sample rates -/
+def spdSet : List Nat := [1, 2, 31, 32, 125, 254, 255]
+def byteSet : List Nat := [0, 1, 63, 64, 127, 128, 255]
+def rateSet : List Nat := [0, 1, 8362, 8363, 8364, 65535, 65536, 0x7fffffff, 0x80000000, 0xffffffff]
+
+/-- a rate per sample: extremes for a third of the samples -/
+def rateOf (seed : UInt64) (i : Nat) : Nat :=
+  let h := (hashFx seed (i + 1000)).1.toNat
+  let g := (hashFx seed (i + 1500)).2.toNat
+  if h % 3 = 0 then rateSet.getD (g % rateSet.length) 8363 else 4000 + g * 173
+
+/-- size classes: 0..2 ordinary; 9 = the format's maximum counts (patterns, orders, instruments, samples, rows) with tiny contents; 3 = long IT-compressed samples (several blocks); 5 = sample data beyond 64 KiB;
 6 = sample data beyond 1 MiB; 7, 8 = XM regression witnesses -/
 def baseSize (size : Nat) : Nat := if size ≥ 3 then 0 else size
 
@@ -121,8 +138,8 @@ def genSmp (i : Nat) (maxLen : Nat) : G (Ins × Smp) := do
     return ({ name := name, subs := [] }, { name := [], len := 0, lps := 0, lpe := 0, flg := 0, pcm := [] })
   let half ← if (← chance 15) then range 1 3 else range 1 (maxLen / 2)
   let len := 2 * half
-  let vol ← if (← chance 30) then pure 64 else range 0 64
-  let fin ← range 0 15
+  let vol ← pickB [0, 1, 63, 64] 0 64 50
+  let fin ← pickB [0, 7, 8, 15] 0 15
   let sub : Sub := { sid := i, vol := vol, pan := 0x80, xpo := 0, fin := if fin ≥ 8 then (fin : Int) * 16 - 256 else fin * 16 }
   let pcm ← genPcm len
   let looped ← chance 50
@@ -136,13 +153,17 @@ def gen (special : Nat) : G (Module × Opts × String) := do
   let size := baseSize special
   let kind ← below 4
   let chn ← if kind < 2 then pure 4 else if (← chance 50) then range 1 9 else range 1 32
+  let mx := special = 9
+  let chn := if mx ∧ kind ≥ 2 then 1 + chn % 4 else chn
   let npat ← if (← chance 10) then range 1 128 else range 1 (2 + size)
   let npat := if size = 0 then min npat 3 else npat
-  let len ← if (← chance 10) then pure 128 else range 1 (min 128 (4 + 8 * size))
+  let npat := if mx then 128 else npat          -- the format's maximum: value 127 in the order table
+  let len ← if (← chance 10) then pure 128 else pickB [1, 2, 127, 128] 1 (min 128 (4 + 8 * size)) 20
+  let len := if mx then 128 else len
   let ords ← listOf len (below npat)
   let pos ← below len
   let ords := (ords.take pos ++ [npat - 1] ++ ords.drop (pos + 1)).map u8
-  let nz ← range 5 90
+  let nz ← if mx then range 1 4 else range 5 90
   let pats ← listOf npat (do return { rows := 64, cells := (← listOf (64 * chn) (genCell nz)) })
   let maxLen := if size = 0 then 64 else if size = 1 then 600 else 5000
   let allEmpty ← chance 8
@@ -154,7 +175,7 @@ def gen (special : Nat) : G (Module × Opts × String) := do
     ins := ins.push x
     smps := smps.push s
   let name ← genName 20
-  let restart ← if (← chance 60) then pure 0x7f else below 256
+  let restart ← if (← chance 50) then pure 0x7f else pickB [0, 1, 0x7e, 0x80, 0xff] 0 255 50
   let fxseed ← next
   -- big files: one (64 KiB class) or nine (1 MiB class) maximal samples first, small ones behind them
   if special = 5 ∨ special = 6 then
@@ -208,8 +229,8 @@ def genSlot (i maxLen : Nat) : G (Ins × Smp) := do
   if (← chance 30) then
     return ({ name := name, subs := [] }, { name := [], len := 0, lps := 0, lpe := 0, flg := 0, pcm := [] })
   let flg0 := (if (← chance 40) then F16BIT else 0) + (if (← chance 30) then FSTEREO else 0)
-  let len ← if (← chance 15) then range 1 4 else range 1 maxLen
-  let vol ← range 0 64
+  let len ← if (← chance 15) then range 1 4 else pickB [1, 2, 3, 255, 256, 257] 1 maxLen 15
+  let vol ← pickB [0, 1, 63, 64] 0 64
   let looped ← chance 50
   let (lps, lpe) ← if looped then genLoop len else pure (0, 0)
   let flg := flg0 + (if looped then FLOOP else 0)
@@ -228,12 +249,18 @@ def bigSlots (special seed : Nat) (slots : List (Ins × Smp)) : List (Ins × Smp
 
 def gen (special : Nat) : G (Module × Opts × String) := do
   let size := baseSize special
-  let chn ← if (← chance 60) then range 1 8 else range 1 32
+  let mx := special = 9
+  let chn ← if (← chance 60) then pickB [1, 2, 8] 1 8 20 else pickB [1, 16, 31, 32] 1 32
+  let chn := if mx then 1 + chn % 3 else chn
   let npat ← if (← chance 5) then range 1 100 else range 1 (2 + size)
   let npat := if size = 0 then min npat 3 else npat
+  -- the maxima: 100, 200 or 254 stored patterns (254 = the largest pattern number an order entry can name)
+  let pk1 ← below 3
+  let npat := if mx then [100, 200, 254].getD pk1 254 else npat
   -- 16-bit pattern parapointers: the pattern area must end below 1 MiB (worst case 6 bytes per cell)
   let npat := min npat (1040000 / (64 * (6 * chn + 1) + 18))
-  let len ← range 1 (min 255 (4 + 10 * size))
+  let len ← pickB [1, 2, 254, 255] 1 (min 255 (4 + 10 * size)) 15
+  let len := if mx then 255 else len
   let ords ← listOf len (do
     if (← chance 12) then return (if (← chance 50) then 0xfe else 0xff) else below npat)
   let pos ← below len
@@ -247,20 +274,22 @@ def gen (special : Nat) : G (Module × Opts × String) := do
   let ords := if beyond ∧ npat < 0xfd ∧ ords2.any (fun x => x.toNat < npat) then ords2 else ords
   -- the scan from order 0 must reach a stored pattern before an end marker
   let ords := if S3m.startsValid npat ords then ords else u8 (npat - 1) :: ords.drop 1
-  let nz ← range 3 95
+  let nz ← if mx then range 0 3 else range 3 95
   let emptyPat ← below (npat + 3)
   let pats ← (List.range npat).mapM fun k => do
     let cells ← listOf (64 * chn) (genCell (if k = emptyPat then 0 else nz))
     return ({ rows := 64, cells := cells } : Pat)
   let nins ← if (← chance 10) then range 0 1 else range 1 (3 + 4 * size)
-  let maxLen := if size = 0 then 40 else if size = 1 then 400 else 3000
+  let maxLen := if mx then 6 else if size = 0 then 40 else if size = 1 then 400 else 3000
   let nins := if special = 5 ∨ special = 6 then max nins 5 else nins
+  let pk2 ← below 3
+  let nins := if mx then [99, 100, 255].getD pk2 255 else nins
   let slots ← (List.range nins).mapM fun i => genSlot i maxLen
   let bseed ← below 1000
   let slots := if special = 5 ∨ special = 6 then bigSlots special bseed slots else slots
   let name ← genName 28
-  let spd ← range 1 255
-  let bpm ← if (← chance 70) then range 32 255 else range 20 255
+  let spd ← pickB spdSet 1 255
+  let bpm ← pickB [20, 21, 31, 32, 33, 125, 254, 255] 20 255
   let ffi ← range 1 2
   let panOn ← chance 50
   let pan ← genBytes 32
@@ -273,10 +302,10 @@ def gen (special : Nat) : G (Module × Opts × String) := do
     | 0 => pure 0x1320 | 1 => pure 0x1300 | 2 => pure 0x3217 | _ => pure 0x5130
   let m : Module := { name := name, chn := chn, orders := ords, pats := pats, ins := slots.map (·.1),
                       smps := slots.map (·.2), spd := spd, bpm := bpm }
-  let o : Opts := { ffi := ffi, cwt := cwt, flags := (← below 256), gv := u8 (← range 0 64), mv := u8 (← below 256),
-                    pan := if panOn then some pan else none,
+  let o : Opts := { ffi := ffi, cwt := cwt, flags := (← pickB byteSet 0 255), gv := u8 (← pickB byteSet 0 255), mv := u8 (← pickB ([2, 0x12, 0x10, 0x80] ++ byteSet) 0 255),
+                    pan := if panOn then some (pan.zipIdx.map fun (b, k) => if k % 3 = 0 then u8 (byteSet.getD (b.toNat % 7) 0) else if k % 3 = 1 then u8 (0x20 + b.toNat % 16) else b) else none,
                     chset := fun k => u8 (hashNat cseed k % 16 + (if hashNat cseed (k + 100) % 2 = 0 then 0 else 0x80) % 255),
-                    c2spd := fun i => 4000 + (hashNat cseed (i + 1000)) * 97,
+                    c2spd := rateOf cseed,
                     nullEmpty := nullEmpty,
                     force := fun i => if forceMode = 0 then 0 else if forceMode = 1 then hashNat fseed i % 8
                                       else (if hashNat fseed i % 4 = 0 then hashNat fseed (i + 7) % 8 else 0),
@@ -304,7 +333,7 @@ def genSmp (maxLen : Nat) : G Smp := do
   if (← chance 12) then
     return { name := name, len := 0, lps := 0, lpe := 0, flg := 0, pcm := [] }
   let flg0 := (if (← chance 45) then F16BIT else 0) + (if (← chance 25) then FSTEREO else 0)
-  let len ← if (← chance 15) then range 1 5 else range 1 maxLen
+  let len ← if (← chance 15) then range 1 5 else pickB [1, 2, 3, 7, 8, 9, 255, 256, 257] 1 maxLen 15
   let lt ← below 4
   let (lps, lpe) ← if lt ≥ 2 then genLoop len else pure (0, 0)
   let flg := flg0 + (if lt = 2 then FLOOP else if lt = 3 then FLOOP + FBIDIR else 0)
@@ -329,13 +358,13 @@ def genInsSize : G Nat := do
 def genIns (sid maxLen size : Nat) : G (Ins × List Smp) := do
   let name ← genName 22
   if (← chance 30) then return ({ name := name, subs := [] }, [])
-  let nsm ← if (← chance 60) then pure 1 else if (← chance 90) then range 2 4 else range 5 16
+  let nsm ← if (← chance 60) then pure 1 else if (← chance 85) then range 2 4 else pickB [15, 16] 5 16 50
   let smps ← listOf nsm (genSmp maxLen)
   let subs ← (List.range nsm).mapM fun j => do
-    let vol ← range 0 64
-    let pan ← below 256
-    let xpo ← range 0 255
-    let fin ← range 0 255
+    let vol ← pickB [0, 1, 63, 64] 0 64
+    let pan ← pickB byteSet 0 255
+    let xpo ← pickB [0, 1, 127, 128, 129, 255] 0 255
+    let fin ← pickB [0, 1, 127, 128, 129, 255] 0 255
     return ({ sid := sid + j, vol := vol, pan := pan, xpo := (xpo : Int) - 128, fin := (fin : Int) - 128 } : Sub)
   let km ← listOf 96 (below nsm)
   let km := if size < 241 then km.map (fun _ => 0) else km
@@ -368,24 +397,33 @@ def genOggTrap (sid : Nat) : G (List (Ins × Nat) × List Smp × Nat) := do
 
 def gen (witness : Nat) : G (Module × Opts × String) := do
   let size := baseSize witness
-  let chn ← if (← chance 60) then range 1 8 else range 1 32
+  let mx := witness = 9
+  let chn ← if (← chance 60) then pickB [1, 2, 8] 1 8 20 else pickB [1, 31, 32] 1 32
+  let chn ← if mx then range 1 3 else if (← chance 4) then pure 64 else pure chn
   let npat ← if (← chance 5) then range 1 64 else range 1 (2 + size)
   let npat := if size = 0 then min npat 3 else npat
-  let len ← range 1 (min 256 (4 + 10 * size))
+  let npat := if mx then 256 else npat           -- the format's maximum
+  let len ← pickB [1, 2, 255, 256] 1 (min 256 (4 + 10 * size)) 15
+  let len := if mx then 256 else len
   let ords ← listOf len (do return u8 (← below npat))
+  let opos ← below len
+  let ords := if mx then ords.take opos ++ [u8 (npat - 1)] ++ ords.drop (opos + 1) else ords
   let nz ← range 3 95
   let emptyPat ← below (npat + 3)
   let pats ← (List.range npat).mapM fun k => do
     let rows ← match (← below 6) with
       | 0 => range 1 4
       | 1 => pure 64
-      | 2 => if chn ≤ 40 then pure 256 else pure 128
+      | 2 => if chn ≤ 40 then pickB [255, 256] 255 256 90 else pure 128
       | _ => range 1 (if size = 0 then 32 else 128)
+    let rows := if mx then (if k = 7 then 256 else 1 + k % 2) else rows
     let rows := min rows (65535 / (6 * chn))
     let cells ← listOf (rows * chn) (genCell (if k = emptyPat then 0 else nz))
     return ({ rows := rows, cells := cells } : Pat)
   let nins ← if (← chance 10) then range 0 1 else range 1 (3 + 4 * size)
-  let maxLen := if size = 0 then 40 else if size = 1 then 400 else 3000
+  let pk3 ← below 3
+  let nins := if mx then [127, 128, 255].getD pk3 128 else nins
+  let maxLen := if mx then 5 else if size = 0 then 40 else if size = 1 then 400 else 3000
   let mut ins : Array Ins := #[]
   let mut smps : Array Smp := #[]
   let mut sizes : Array Nat := #[]
@@ -399,6 +437,8 @@ def gen (witness : Nat) : G (Module × Opts × String) := do
   for _ in [0:nins] do
     let size ← genInsSize
     let (x, ms) ← genIns smps.size maxLen size
+    -- maxima class: most instruments without samples (the sample total stays small)
+    let (x, ms) := if mx ∧ smps.size > 40 then ({ x with subs := [], keymap := [] }, []) else (x, ms)
     ins := ins.push x
     sizes := sizes.push size
     smps := smps ++ ms.toArray
@@ -412,8 +452,8 @@ def gen (witness : Nat) : G (Module × Opts × String) := do
     smps := smps ++ ms.toArray
     trap := toString v
   let name ← genName 20
-  let spd ← range 1 31
-  let bpm ← if (← chance 85) then range 32 255 else range 256 1000
+  let spd ← pickB [1, 2, 30, 31] 1 31
+  let bpm ← if (← chance 85) then pickB [32, 33, 125, 254, 255] 32 255 else pickB [256, 999, 1000] 256 1000
   let xseed ← next
   let vseed ← next
   let mseed ← next
@@ -447,7 +487,7 @@ def gen (witness : Nat) : G (Module × Opts × String) := do
   -- instruments appended above (witnesses) get full-size headers with a few skipped bytes
   let sizeList := sizes.toList
   let insSize : Nat → Nat := fun i => if i < sizeList.length then sizeList.getD i 263 else 263 + i % 7
-  let o : Opts := { hsz := hsz, insSize := insSize, tracker := trk, restart := (← below 300), flags := (← below 2), emptyZero := emptyZero, emptyInsSize := eis,
+  let o : Opts := { hsz := hsz, insSize := insSize, tracker := trk, restart := (← pickB [0, 1, 255, 256, 65535] 0 65535 60), flags := (← pickB [0, 1, 2, 65535] 0 65535 80), emptyZero := emptyZero, emptyInsSize := eis,
                     fx := fun i => let (a, b) := hashFx xseed i; (u8 (a.toNat % 40), b),
                     volfx := fun i => if hashNat vseed i % 3 = 0 then 0 else u8 (hashNat vseed (i + 1)),
                     mode := fun i => match modeKind with
@@ -479,9 +519,9 @@ def genSlot (i maxLen : Nat) : G (Ins × Smp) := do
   if (← chance 25) then
     return ({ name := name, subs := [] }, { name := [], len := 0, lps := 0, lpe := 0, flg := 0, pcm := [] })
   let flg0 := (if (← chance 45) then F16BIT else 0) + (if (← chance 25) then FSTEREO else 0)
-  let len ← if (← chance 15) then range 2 5 else range 2 maxLen
-  let vol ← range 0 64
-  let pan ← range 0 64
+  let len ← if (← chance 15) then range 2 5 else pickB [2, 3, 255, 256, 257] 2 maxLen 15
+  let vol ← pickB [0, 1, 63, 64] 0 64
+  let pan ← pickB [0, 1, 32, 63, 64] 0 64
   let lt ← below 4
   let (lps, lpe) ← if lt ≥ 2 then genLoop len else pure (0, 0)
   let st ← below 4
@@ -526,10 +566,15 @@ def genKeys (nsmp : Nat) (offRate maxSubs : Nat) : G (List Nat × List (Option N
 
 def gen (special : Nat) : G (Module × Opts × String) := do
   let size := baseSize special
-  let chn ← if (← chance 60) then range 1 8 else range 1 64
+  let mx := special = 9
+  let chn ← if (← chance 60) then pickB [1, 2, 8] 1 8 20 else pickB [1, 63, 64] 1 64
+  let chn ← if mx then range 1 3 else pure chn
   let npat ← if (← chance 5) then range 1 60 else range 1 (2 + size)
   let npat := if size = 0 then min npat 3 else npat
-  let len ← range 1 (min 256 (4 + 10 * size))
+  let pk4 ← below 2
+  let npat := if mx then [199, 200].getD pk4 200 else npat      -- the format's maximum
+  let len ← pickB [1, 2, 255, 256] 1 (min 256 (4 + 10 * size)) 15
+  let len := if mx then 256 else len
   let ords ← listOf len (do
     if (← chance 12) then return (if (← chance 50) then 0xfe else 0xff) else below npat)
   let ords := ords.map u8
@@ -547,15 +592,18 @@ def gen (special : Nat) : G (Module × Opts × String) := do
   let emptyPat ← below (npat + 3)
   let pats ← (List.range npat).mapM fun k => do
     let rows ← match (← below 5) with
-      | 0 => range 1 4 | 1 => pure 64 | 2 => pure 200
+      | 0 => range 1 4 | 1 => pure 64 | 2 => pickB [199, 200] 199 200 90
       | _ => range 1 (if size = 0 then 32 else 128)
+    let rows := if mx then (if k = 5 then 200 else 1 + k % 2) else rows
     let rows := if chn > 16 then min rows 64 else rows
     let cells ← listOf (rows * chn) (genCell (if k = emptyPat then 0 else nz) palette)
     return ({ rows := rows, cells := cells } : Pat)
   let nsmp ← if (← chance 10) then range 0 1 else range 1 (3 + 4 * size)
-  let maxLen := if size = 0 then 40 else if size = 1 then 400 else 3000
+  let maxLen := if mx then 5 else if size = 0 then 40 else if size = 1 then 400 else 3000
   let isSpecial := special = 3 ∨ special = 5 ∨ special = 6
   let nsmp := if isSpecial then max nsmp 5 else nsmp
+  let pk5 ← below 3
+  let nsmp := if mx then [99, 100, 255].getD pk5 99 else nsmp
   let slots ← (List.range nsmp).mapM fun i => genSlot i maxLen
   let bseed ← below 1000
   let slots := if isSpecial then bigSlots special bseed slots else slots
@@ -563,8 +611,8 @@ def gen (special : Nat) : G (Module × Opts × String) := do
   let wmode ← below 3
   let compRate ← below 3
   let name ← genName 25
-  let spd ← range 1 255
-  let bpm ← range 32 255
+  let spd ← pickB spdSet 1 255
+  let bpm ← pickB [32, 33, 125, 254, 255] 32 255
   let sseed ← next
   let cseed ← next
   let xseed ← next
@@ -573,12 +621,16 @@ def gen (special : Nat) : G (Module × Opts × String) := do
   let nullEmpty ← chance 50
   -- instrument mode: 0 = sample mode, 1 = new instrument headers, 2 = old instrument headers
   let imode ← if isSpecial then pure 0 else match (← below 5) with | 0 | 1 => pure 1 | 2 => pure 2 | _ => pure 0
+  let imode ← if mx then range 0 2 else pure imode
   let isNew := imode = 1
   let iseed ← next
-  let smpVol : Nat → Nat := fun i => hashNat iseed (i + 300) % 65
-  let smpPan : Nat → Option Nat := fun i => if hashNat iseed (i + 600) % 3 = 0 then some (hashNat iseed (i + 700) % 65) else none
-  let insPan : Nat → Option Nat := fun i => if hashNat iseed (i + 800) % 2 = 0 then some (hashNat iseed (i + 900) % 65) else none
+  let edge (h : Nat) (bs : List Nat) (m : Nat) : Nat := if h % 3 = 0 then bs.getD (h / 3 % bs.length) 0 else h % m
+  let smpVol : Nat → Nat := fun i => edge (hashNat iseed (i + 300)) [0, 1, 63, 64] 65
+  let smpPan : Nat → Option Nat := fun i => if hashNat iseed (i + 600) % 3 = 0 then some (edge (hashNat iseed (i + 700)) [0, 1, 32, 63, 64] 65) else none
+  let insPan : Nat → Option Nat := fun i => if hashNat iseed (i + 800) % 2 = 0 then some (edge (hashNat iseed (i + 900)) [0, 1, 32, 64, 127] 128) else none
   let nins ← range 0 (3 + 2 * size)
+  let pk6 ← below 3
+  let nins := if mx then [99, 100, 255].getD pk6 99 else nins
   let mut inss : Array Ins := #[]
   let mut offTab : Array (List Bool) := #[]
   for i in [0:(if imode = 0 then 0 else nins)] do
@@ -610,7 +662,7 @@ def gen (special : Nat) : G (Module × Opts × String) := do
                     filler := fun k => u8 (hashNat iseed (k + 5000)),
                     cwt := (if (← chance 50) then 0x0214 else 0x0888),
                     cmwt := cmwtSel,
-                    flags := (← below 256), gv := u8 (← range 0 128), mv := u8 (← below 129),
+                    flags := (← pickB byteSet 0 255), gv := u8 (← pickB byteSet 0 128), mv := u8 (← pickB byteSet 0 255),
                     signed := fun i => hashNat sseed i % 2 = 0,
                     comp := fun i =>
                       if special = 3 then [2, 1, 2, 2].getD i (hashNat wseed (i + 40) % 3)
@@ -621,7 +673,7 @@ def gen (special : Nat) : G (Module × Opts × String) := do
                       let h := hashNat wseed (i * 100003 + pos)
                       if wmode = 0 then 0 else if wmode = 1 then (if h % 5 = 0 then hashNat wseed (pos + 17) % 17 + 1 else 0)
                       else 1 + h % 7,
-                    c5spd := fun i => 4000 + hashNat sseed (i + 500) * 173,
+                    c5spd := rateOf sseed,
                     nullEmpty := nullEmpty,
                     cell := fun i =>
                       let h := hashNat cseed i
@@ -630,8 +682,8 @@ def gen (special : Nat) : G (Module × Opts × String) := do
                         forceMask := h / 8 % 4 = 0, forceIns := h / 32 % 8 = 0,
                         fx := if fxOn ∧ h / 64 % 2 = 0 then some (u8 (a.toNat % 36), b) else none,
                         fade := hashNat cseed (i + 77) },
-                    chpan := fun k => u8 (hashNat cseed (k + 9000) % 65),
-                    chvol := fun k => u8 (hashNat cseed (k + 9100) % 65) }
+                    chpan := fun k => u8 (edge (hashNat cseed (k + 9000)) [0, 32, 64, 100, 128, 164, 255] 65),
+                    chvol := fun k => u8 (edge (hashNat cseed (k + 9100)) byteSet 65) }
   return (m, o, s!"special={special} comp={compRate} wmode={wmode} chn={chn} pat={npat} len={len} smp={nsmp} last={lastMode} fx={fxOn} nullEmpty={nullEmpty} imode={imode} ins={m.ins.length} hist={hist} midi={midiSel}")
 
 end GenIt
